@@ -12,7 +12,8 @@ RULE = ("each of the sixteen PCBO.add_constraint_G / add_constraint_eq_G methods
         "already carry another logical constraint. Oracle: exact difference after - before tabulated over the "
         "operands' variables against a plain-Python gate evaluator. Non-trivial = relation neither constant-true nor "
         "constant-false; distinct = digest of (method, operand descriptions, lam)")
-TIERS = {"quick": {"shards": 8, "cases": 300}, "thorough": {"shards": 16, "cases": 8000}}
+TIERS = {"quick": {"shards": 8, "cases": 2500}, "thorough": {"shards": 16, "cases": 30000}}
+FLOOR_BASE = {"quick": 300, "thorough": 8000}    # case counts the floors below were calibrated for; the launcher scales them
 METHODS = [g for g in _sat.ALL] + ["eq_" + g for g in _sat.ALL]
 
 
